@@ -572,7 +572,13 @@ func replayCase(w *out.W, id string, g *gen, cfg planCfg, scope string, script .
 			}
 			switch {
 			case strings.Contains(err.Error(), "schemas when migration plan is scoped to one"):
-				cls = "replay-plan-rejected-two-schemas"
+				// the recorded defect explains the rejection only when the two names differ, a
+				// table is dropped and a table is added or modified (C16_replay_code); any
+				// other "found N schemas" is a new violation
+				cls = "replay-plan-rejected-schemas-unexplained"
+				if replayExplained(drv, cfg, state, next, desired.Schemas[0]) {
+					cls = "replay-plan-rejected-two-schemas"
+				}
 				var n int
 				fmt.Sscanf(err.Error(), "found %d schemas", &n)
 				record(fmt.Sprintf("rejected:multi:%d", n))
@@ -777,4 +783,36 @@ func runReplaySweep(w *out.W, tier string, r *rng.R) {
 			}
 		}
 	}
+}
+
+// replayExplained: the condition under which the shallow rename of Planner.plan makes
+// CheckChangesScope see two schemas.
+func replayExplained(drv *devDrv, cfg planCfg, cur, des []dtab, desS *schema.Schema) bool {
+	if drv.devName == cfg.marker {
+		return false
+	}
+	in := func(l []dtab, n string) bool {
+		for _, t := range l {
+			if t.name == n {
+				return true
+			}
+		}
+		return false
+	}
+	drop, addmod := false, false
+	for _, t := range cur {
+		drop = drop || !in(des, t.name)
+	}
+	for _, t := range des {
+		addmod = addmod || !in(cur, t.name)
+	}
+	curS := buildSchema(cfg.pg, drv.devName, cur)
+	for _, t1 := range curS.Tables {
+		if t2, ok := desS.Table(t1.Name); ok {
+			if ch, err := drv.TableDiff(t1, t2); err != nil || len(ch) > 0 {
+				addmod = true
+			}
+		}
+	}
+	return drop && addmod
 }
